@@ -57,6 +57,13 @@ def absStep (m : List Task) (op : Op) (o : Obs) : Option (List Task) :=
     | some old =>
       some (insertTask { id := id, status := st.getD old.status,
                          sched := (si.map SchedIn.toSched).getD old.sched } m)
+  | .optUpdate id ev cr off _, .ok =>
+    -- an acknowledged options patch: "the options patch sets the effective schedule"
+    match lookup id m with
+    | none => none
+    | some old => some (insertTask { old with sched := patchSched old.sched ev cr off } m)
+  | .optUpdate _ _ _ _ _, .err .sched => some o.tasks
+  | .optUpdate _ _ _ _ _, .err _ => some m
   | .update _ _ _, .err .sched => some o.tasks   -- failed half-way: not judged by (b), resynchronise
   | .update _ _ _, .err _ => some m
   | .delete id, .ok => if (lookup id m).isSome then some (m.filter (fun t => t.id ≠ id)) else none
